@@ -78,7 +78,7 @@ ASSUMPTIONS = ["C integer semantics as written in /verif/ref/csem.py from ISO C1
                "NumericLiteral the real method built for a placeholder of the same type; the uninstrumented concrete re-run of "
                "every path validates this"]
 SHIMS_USED = ["isinstance", "int", "struct", "bool", "range"]
-JOB_TIMEOUT = {"quick": 170, "thorough": 1500}
+JOB_TIMEOUT = {"quick": 600, "thorough": 1700}
 TASKS_PER_CHILD = 4
 RULE = ("one evaluation = one batch job of program templates; every template is one harness (all paths of the real front "
         "end for all literal values); non-trivial = templates whose exploration had more than one path")
@@ -170,7 +170,8 @@ def observe(use, mod):
 class CExprHarness(Harness):
     shim_modules = SHIM_MODULES
     max_paths = 400
-    prove_timeout_ms = 30000
+    prove_timeout_ms = 120000
+    timeout_ms = 60000
     mode = "c27"
 
     def __init__(self, use, dest, expr, march="x86_64", W=None):
@@ -214,14 +215,8 @@ class CExprHarness(Harness):
         dm, use, dest = self.dm, self.use, self.dest
         E = csem.Eval(dm, lv)
         v, t = E.ev(self.expr)
-        if use in ("global", "static"):
-            exp = csem.to_bytes(dm, E.conv(v, dest), dest)
-        elif use == "array":
-            one = csem.to_bytes(dm, 1, dest)
-            two = csem.to_bytes(dm, 2, dest)
-            exp = one + csem.to_bytes(dm, E.conv(v, dest), dest) + two
-        elif use == "field":
-            exp = csem.to_bytes(dm, E.conv(v, dest), dest)          # compared with the tail of the image
+        if use in ("global", "static", "array", "field"):
+            exp = E.conv(v, dest)                                      # compared through csem.repr_eq
         elif use == "bitfield":
             a = E.conv(v, "uint") % 8                                  # unsigned a : 3
             b = E.conv(v, "int") % 16                                  # int b : 4 (two's complement bits)
@@ -232,7 +227,7 @@ class CExprHarness(Harness):
             # 6.7.2.2p2: the value shall be representable as an int; so shall the successor be
             lo, hi = dm.lo("int"), dm.hi("int")
             E._undef(True, sym_or(v < lo, v > hi - 1))
-            exp = [csem.to_bytes(dm, E.conv(v, dest), dest), csem.to_bytes(dm, E.conv(v + 1, dest), dest)]
+            exp = [E.conv(v, dest), E.conv(v + 1, dest)]
         elif use == "arraysize":
             # 6.7.6.2p1: greater than zero; bound: fits int (ppci converts the size to int)
             E._undef(True, sym_or(v < 1, v > dm.hi("int")))
@@ -294,17 +289,21 @@ class CExprHarness(Harness):
         exp = inp["expected"]
         got = out.value
         use = self.use
-        if use in ("global", "static", "array"):
-            ok = core.sym_eq(list(got), list(exp))
+        dm, dest = self.dm, self.dest
+        n = dm.size(dest)
+        if use in ("global", "static"):
+            ok = csem.repr_eq(dm, got, exp, dest)
+        elif use == "array":
+            ok = sym_and(len(got) == 3 * n, csem.repr_eq(dm, got[:n], 1, dest),
+                         csem.repr_eq(dm, got[n:2 * n], exp, dest), csem.repr_eq(dm, got[2 * n:], 2, dest))
         elif use == "field":
-            n = len(exp)
-            ok = sym_and(len(got) >= n + 1, got[0] == 1, core.sym_eq(list(got[-n:]), list(exp)))
+            ok = sym_and(len(got) >= n + 1, got[0] == 1, csem.repr_eq(dm, got[-n:], exp, dest))
         elif use == "bitfield":
             ok = (got[0] & 0x7F) == exp
         elif use == "case":
             ok = got[0] == exp
         elif use == "enum":
-            ok = sym_and(core.sym_eq(list(got[0]), list(exp[0])), core.sym_eq(list(got[1]), list(exp[1])))
+            ok = sym_and(csem.repr_eq(dm, got[0], exp[0], dest), csem.repr_eq(dm, got[1], exp[1], dest))
         elif use == "arraysize":
             ok = got == exp
         else:
@@ -377,7 +376,7 @@ def quick_templates(march="x86_64"):
                 if use in ("static", "bitfield") and op not in ("add", "sub", "div", "shl"):
                     continue
                 T.append((use, d, [op, lit(0, ""), lit(1, "u" if op in ("sub",) else "")]))
-                if op in ("div", "sub"):
+                if op in ("div", "sub") and use != "arraysize":
                     T.append((use, d, [op, ["neg", lit(0, "")], lit(1, "")]))
     return [(u, d, e, march) for u, d, e in T]
 
